@@ -42,7 +42,9 @@ func gen(t *rapid.T) Case {
 		r.Data = data
 	}
 	o := progen.Opts{MaxPkgs: 2, MaxIfaces: 3, Avoid: map[string]bool{"srcpkg:mock": true, "pkg:mockp": true, "ident:case-collision": true, "tparamname:mock": true}}
-	return Case{Mod: progen.Gen(t, o), R: r, Seed: rapid.Uint64Range(1, 1<<62).Draw(t, "innerseed"), Checks: vh.Pick(150, 400)}
+	mod := progen.Gen(t, o)
+	r.GenIfaceData(t, &mod)
+	return Case{Mod: mod, R: r, Seed: rapid.Uint64Range(1, 1<<62).Draw(t, "innerseed"), Checks: vh.Pick(150, 400)}
 }
 
 var mockFileErr = regexp.MustCompile(`(?m)^(\.\./)?mocks/[^:\s]*\.go:\d+`)
@@ -78,6 +80,9 @@ func run(c Case) *vh.Violation {
 	}
 	mockdrive.Install(dir, &c.Mod, c.R, "matryer")
 	rr := mockdrive.Run(dir, "TestMatryer", c.Seed, c.Checks, false)
+	if rr.BuildFail && strings.Contains(rr.Output, "all goroutines are asleep - deadlock") {
+		return vh.Violate("matryer/deadlock", "the generated mock deadlocked").With(vh.ReadTree(dir), vh.Trunc(rr.Output, 4000))
+	}
 	if rr.BuildFail {
 		if mockFileErr.MatchString(rr.Output) && !strings.Contains(rr.Output, "zz_drv/") {
 			vh.Count("", append(cl, "skipped:c01-compile")...)
@@ -104,11 +109,17 @@ func run(c Case) *vh.Violation {
 	if fp != "" && vh.NeedSample() {
 		vh.Sample(map[string]any{"opts": c.R.Data, "histories": v.Histories, "steps": v.Steps, "nontrivial_histories": v.NonTrivial, "signature_shapes": v.Shapes, "classes": v.Classes})
 	}
+	if v.Failure == nil && strings.Contains(rr.Output, "all goroutines are asleep - deadlock") {
+		return vh.Violate("matryer/deadlock", "the generated mock deadlocked").With(vh.ReadTree(dir), vh.Trunc(rr.Output, 4000))
+	}
 	if v.Failure != nil {
 		f := v.Failure
 		key := "matryer/" + f.Kind
 		if strings.HasPrefix(f.Kind, "stub") || strings.HasPrefix(f.Kind, "nil-func") {
-			key += fmt.Sprintf("/stub-impl=%v", c.R.Data["stub-impl"] == true)
+			key += fmt.Sprintf("/stub-impl-at-root=%v", c.R.Data["stub-impl"] == true)
+			if len(c.R.IfaceData) > 0 {
+				key += "/interface-level-template-data"
+			}
 		}
 		if strings.HasPrefix(f.Kind, "reset") {
 			key += fmt.Sprintf("/with-resets=%v", c.R.Data["with-resets"] == true)
